@@ -452,6 +452,13 @@ pub fn family(kind: &str, n: usize) -> Option<Vec<u8>> {
                 }
             }
         }
+        // one long value first, then n small additional values (whatever was read earlier must not tax later reads)
+        "longfirst" => {
+            tok(&mut b, 0x41, b"t", &vec![0x61u8; 60000]);
+            for i in 0..n {
+                tok(&mut b, 0x21, b"", &(i as u32).to_be_bytes());
+            }
+        }
         // attributes whose names are long runs of bytes that are not UTF-8 (n = total bytes of such names)
         "badnames" => {
             let l = 16000usize.min(n.max(1));
@@ -476,5 +483,5 @@ pub fn family(kind: &str, n: usize) -> Option<Vec<u8>> {
 
 pub const FAMILIES: &[(&str, usize)] = &[
     ("depth", 16), ("width", 9), ("attrs", 11), ("dupattrs", 10), ("groups", 1), ("members", 15),
-    ("unclosed", 5), ("ends", 5), ("bigvalues", 1), ("collset", 21), ("deepsets", 25), ("badnames", 1), ("badtext", 1),
+    ("unclosed", 5), ("ends", 5), ("bigvalues", 1), ("collset", 21), ("deepsets", 25), ("badnames", 1), ("badtext", 1), ("longfirst", 9),
 ];
